@@ -26,6 +26,9 @@ ops (numbers decimal, addresses / byte strings hex, `-` = empty):
   runs through the key plan AND the statement list of ValidateConfirmSign regenerated from the Go source (`confirmStepGV`)
 * `verifysig <file> <digest> <sig65> <signer> <msgHash> <rec|->` — `verifySig` of that contract file (regenerated source
   structure, the model's own Keccak over the regenerated `abi.encodePacked` arguments); answer `true|false`
+* `branch` / `discard` / `commit` — open a branch of the whole state (`CacheContext`), drop it, keep it: `ok`
+* `vbasic <oset|batch|bcall> <chain registered 0|1> <bridger bech32 ok 0|1> <external ok 0|1> <token ok 0|1|-> <sig hex | ! | ->`
+  — `ValidateBasic` of the confirm message (regenerated check list, interpreted by `vbRun`): `ok` or the text of the failing check
 * `remove <c> <site> <oset|batch|bcall> <key…>` — a pruning site of the source (`deleteSites`, regenerated) removes the
   object; answer `ok` + the confirms left under the key + `live=<0|1>` + `n=<all confirms>`
 -/
@@ -38,6 +41,8 @@ structure Chain where
 
 structure St where
   chains : List (String × Chain) := []
+  /-- branches of the state that are open (`CacheContext` without a `write` yet): the states to return to on `discard` -/
+  saved : List (List (String × Chain)) := []
 
 def splitList (s : String) : List (List String) :=
   if s == "-" then [] else (s.splitOn ",").map (·.splitOn ":")
@@ -137,6 +142,18 @@ def doVerifySig (file d sig signer mh rc : String) : String :=
 def stepLine (s : St) (line : String) : St × String :=
   match words line with
   | "reset" :: _ => ({}, "ok")
+  -- `branch` opens a branch of the whole state (a failed multi-message transaction, CheckTx, a simulation: `CacheContext`);
+  -- `discard` drops everything done since (`branchRun`/`discardBranch` of Model/C12Msg: the state is the one before), `commit`
+  -- keeps it
+  | ["branch"] => ({ s with saved := s.chains :: s.saved }, "ok")
+  | ["discard"] =>
+    match s.saved with
+    | old :: rest => ({ s with chains := old, saved := rest }, "ok")
+    | [] => (s, "bad-op")
+  | ["commit"] =>
+    match s.saved with
+    | _ :: rest => ({ s with saved := rest }, "ok")
+    | [] => (s, "bad-op")
   | ["verifysig", file, d, sig, signer, mh, rc] => (s, doVerifySig file d sig signer mh rc)
   | ["chain", c, style, gid] =>
     match unhexD gid with
